@@ -677,6 +677,6 @@ Proof.
   intros i Hi. unfold addc. cbn [snd].
   rewrite N.lor_spec, !N.land_spec, N.lor_spec, N.lnot_spec_low by exact Hi.
   rewrite N.mod_pow2_bits_low by exact Hi. rewrite Hsum, !N.lxor_spec.
-  rewrite N.add_1_r, <- N.div2_bits, N.div2_div, Hc, N.lor_spec, !N.land_spec, N.lor_spec.
+  rewrite N.add_1_r, <- N.div2_bits, Hc, N.lor_spec, !N.land_spec, N.lor_spec.
   destruct (N.testbit a i), (N.testbit b i), (N.testbit c i); reflexivity.
 Qed.
